@@ -5,6 +5,7 @@ import (
 	"go/constant"
 	"go/token"
 	"math/big"
+	"sort"
 	"strings"
 
 	"golang.org/x/tools/go/ssa"
@@ -18,7 +19,7 @@ func init() {
 		ID:    "C13",
 		Title: "Shortened and pretty size renderings are exact and maximal",
 		Run:   runC13,
-		Explanation: "C13.tab: shortenUnits = B, KiB, MiB, GiB, TiB, PiB in that order, each with multiplier 2^(10k) in unitToValues, the post-loop unit is Exbibyte with multiplier 2^(10·len); in Shorten the mask constant + 1 equals 1 << the shift constant equals 1024, the `!= 0` test on the masked value precedes the shift of the same value, the in-loop return pairs the unshifted value with the unit of the current index; zero returns (0, Byte). " +
+		Explanation: "C13.shorten: Size.Shorten is evaluated abstractly on a 64-bit vector whose 10·k low bits are zero and whose k-th group of ten bits is not (k = 0..6), literal tables resolved to their contents, helper functions inlined: every path returns (s >> 10k, the k-th of B, KiB, MiB, GiB, TiB, PiB, EiB); zero returns (0, B). Bit tests on part of the deciding group are explored both ways. " +
 			"C13.methods: String / PrettyString / PrettyHTML evaluate to Formatter(<nil or fresh zero-length buffer>, s, 0 / FormatPretty / FormatPretty|FormatHTML) converted, independent of the marshal switches; formatter error: decimal fallback resp. panic; Formatter is initialised to DefaultFormatter. C13.buffer: the digit text and the destination do not share storage (append-only and buffer-independence rules of C16 on size.DefaultFormatter). C13.sep: appendSeparator as a decision table over (pretty bit, HTML bit): nothing / \" \" / \"&nbsp;\" / nothing. " +
 			"C13.group: residue analysis mod 3 of the grouping condition: a separator follows exactly the digits with a multiple of three digits to their right (9 residue pairs, exhaustive); C13.emit: the formatter converts Shorten's value with strconv in base 10, appends each digit of that text once in order (separators only through appendSeparator), then the unit, and returns that buffer.",
 		NotDecided:  []string{"the inductive value invariant value·1024^steps = size of the Shorten loop for all 2^64 sizes (follows from mask/shift agreement; stated, not machine-checked)"},
@@ -28,8 +29,7 @@ func init() {
 }
 
 func runC13(e *Env) {
-	units := ruleC13Tab(e)
-	ruleC13Shorten(e, units)
+	ruleShortenSem(e, "C13.shorten")
 	ruleC13Sep(e)
 	ruleC13Group(e)
 	ruleC13Emit(e)
@@ -44,7 +44,7 @@ func runC13(e *Env) {
 	e.S.Floor("C13.buffer", 2)
 	e.S.Floor("C13.methods", 7)
 	e.S.Floor("C13.emit", 3)
-	e.S.Floor("C13.tab", 10)
+	e.S.Floor("C13.shorten", 8)
 	e.S.Floor("C13.sep", 4)
 	e.S.Floor("C13.group", 9)
 }
@@ -701,6 +701,167 @@ func ruleC13Methods(e *Env) {
 					e.S.Bad(rule, site, m.name+" error", "formatter error path: "+msg, e.Pos(fn), "")
 				}
 			}
+		}
+	}
+}
+
+// ruleShortenSem: Size.Shorten decided by its meaning instead of its shape. The method is evaluated on a 64-bit
+// vector whose 10·k low bits are zero and whose k-th group of ten is not (k = 0..6; 6: only bits 60..63 are left),
+// with literal tables resolved to their contents. Every path must return (s >> 10k, the documented k-th binary unit);
+// zero returns (0, "B"). Loops over the unit table, index loops, helper functions and redundant fast paths all
+// evaluate to the same thing.
+func ruleShortenSem(e *Env, rule string) {
+	fn := e.Method(rule, "size", "Size", "Shorten")
+	if fn == nil {
+		return
+	}
+	site := flow.FnName(fn)
+	pos := e.Pos(fn)
+	want := []string{"B", "KiB", "MiB", "GiB", "TiB", "PiB", "EiB"}
+	hook := e.globalTables()
+	// zero
+	{
+		ev := &pred.Evaluator{Prog: e.P.SSA, Oracle: noOracle{}, GlobalInit: hook}
+		out, err := ev.Eval(fn, []pred.Val{pred.Const{V: constant.MakeInt64(0)}})
+		switch {
+		case err != nil:
+			e.S.Unk(rule, site, "zero", err.Error(), pos)
+		case out.Panic || out.Ret.String() != `(0, "B")`:
+			e.S.Bad(rule, site, "zero", "Shorten(0) evaluates to "+out.Ret.String()+", documented (0, \"B\")", pos, "Size(0)")
+		default:
+			e.S.Ok(rule, site, "zero", "zero ⇒ (0, \"B\")", pos)
+		}
+	}
+	for k := 0; k <= 6; k++ {
+		construct := fmt.Sprintf("lowest non-zero group %d", k)
+		lo, hi := 10*k, 10*k+9
+		if hi > 63 {
+			hi = 63
+		}
+		mk := func() []pred.Val {
+			b := pred.SymBits("s", 64, false)
+			for i := 0; i < lo; i++ {
+				b.B[i] = pred.Bit{K: '0'}
+			}
+			return []pred.Val{b}
+		}
+		// which bits of s a value still depends on (other bits must be known zeros)
+		symSet := func(v pred.Val) (set map[int]bool, anyOne bool, ok bool) {
+			b, isB := v.(pred.Bits)
+			if !isB {
+				return nil, false, false
+			}
+			set = map[int]bool{}
+			for _, bit := range b.B {
+				switch bit.K {
+				case 's':
+					if bit.Sym != "s" {
+						return nil, false, false
+					}
+					set[bit.Idx] = true
+				case '1':
+					anyOne = true
+				case '0':
+				default:
+					return nil, false, false
+				}
+			}
+			return set, anyOne, true
+		}
+		fixed := func(a, b pred.Val) (int, bool, bool) {
+			c, isC := b.(pred.Const)
+			if !isC || c.V == nil || c.V.ExactString() != "0" {
+				return 0, false, false
+			}
+			set, anyOne, ok := symSet(a)
+			if !ok {
+				return 0, false, false
+			}
+			if anyOne {
+				return 1, true, true
+			}
+			all := true
+			for i := lo; i <= hi; i++ {
+				if !set[i] {
+					all = false
+				}
+			}
+			if all {
+				return 1, true, true // contains the whole group that the scenario makes non-zero
+			}
+			return 0, false, false
+		}
+		keyOf := func(a, b pred.Val) (string, bool) {
+			c, isC := b.(pred.Const)
+			if !isC || c.V == nil || c.V.ExactString() != "0" {
+				return "", false
+			}
+			set, _, ok := symSet(a)
+			if !ok || len(set) == 0 {
+				return "", false
+			}
+			var idx []int
+			for i := range set {
+				idx = append(idx, i)
+			}
+			sort.Ints(idx)
+			return fmt.Sprintf("s&bits%v", idx), true
+		}
+		// the number of trailing zero bits of such a size lies in [10k, 10k+9] (the scenario fixes the group, not the bit)
+		sums := map[string]pred.Summary{"math/bits.TrailingZeros64": func(ev *pred.Evaluator, args []pred.Val) (pred.Val, error) {
+			set, anyOne, ok := symSet(args[0])
+			full := ok && !anyOne
+			for i := lo; full && i < 64; i++ {
+				full = set[i]
+			}
+			if !full || len(set) != 64-lo {
+				return nil, &pred.Undecided{Reason: "TrailingZeros64 of something other than the size itself"}
+			}
+			return pred.IntRange{Lo: int64(lo), Hi: int64(hi)}, nil
+		}}
+		leaves, err := extractTreeWith(e.P.SSA, fn, mk, sums, fixed, keyOf, binDomain, hook)
+		if err != nil {
+			e.S.Unk(rule, site, construct, err.Error(), pos)
+			continue
+		}
+		bad := ""
+		for _, lf := range leaves {
+			if lf.Err != nil {
+				e.S.Unk(rule, site, construct, lf.Err.Error(), pos)
+				bad = "-"
+				break
+			}
+			t, ok := lf.Out.Ret.(pred.Tuple)
+			if lf.Out.Panic || !ok || len(t) != 2 {
+				bad = "does not return (value, unit)"
+				break
+			}
+			// value = s >> 10k
+			vb, isB := t[0].(pred.Bits)
+			okV := isB && len(vb.B) == 64
+			for i := 0; okV && i < 64; i++ {
+				src := i + lo
+				if src < 64 {
+					okV = vb.B[i].K == 's' && vb.B[i].Sym == "s" && vb.B[i].Idx == src
+				} else {
+					okV = vb.B[i].K == '0'
+				}
+			}
+			if !okV {
+				bad = fmt.Sprintf("returns the value %v, expected the size shifted right by %d bits", t[0], lo)
+				break
+			}
+			if t[1].String() != quote(want[k]) {
+				bad = fmt.Sprintf("returns the unit %v for a size whose largest dividing binary unit is %s (1024^%d)", t[1], want[k], k)
+				break
+			}
+		}
+		switch {
+		case bad == "-":
+		case bad != "":
+			e.S.Bad(rule, site, construct, "a size with exactly "+fmt.Sprint(lo)+" trailing zero bits in whole groups of ten: Shorten "+bad, pos, fmt.Sprintf("Size(1<<%d)", lo))
+		default:
+			e.S.Ok(rule, site, construct, fmt.Sprintf("⇒ (s >> %d, %q) on every path (%d)", lo, want[k], len(leaves)), pos)
 		}
 	}
 }
